@@ -404,6 +404,9 @@ static Case gen_c11(Chooser& ch) {
     case 2: c.push_back(Op("opt").s("name", "arena_reserve").u("v", 64*1024)); break; default: c.push_back(Op("opt").s("name", "arena_reserve").u("v", 32*1024)); break; }
   static const std::vector<long> pd = { 10, 10, 0, -1, 1 }; long d = ch.of(pd); if (d != 10) c.push_back(Op("opt").s("name", "purge_delay").i("v", d));
   if (ch.chance(1, 5)) c.push_back(Op("opt").s("name", "eager_commit_delay").u("v", 0));
+  // forced abandonment of the thread's own segments (option, or mi_collect_reduce ops in the body): everything must still be given back
+  if (ch.chance(1, 4)) { c.push_back(Op("opt").s("name", "target_segments_per_thread").u("v", ch.chance(1, 2) ? 2 : 4)); g.forced = true; } else if (ch.chance(1, 4)) g.forced = true;
+  if (g.forced) { c.push_back(Op("cfg").u("forced", 1)); g.pf.w_collect += 4; }
   size_t reps = ch.chance(1, 2) ? 6 : (size_t)ch.range(4, 9);
   c.push_back(Op("rep").u("n", reps));
   // body: a workload shape + random history
